@@ -1316,22 +1316,22 @@ func VerifC03_ConfigDhseqrWork0() {
 	verifReach("end")
 }
 
-// VerifC03_ConfigBlockedBig (thorough tier): the blocked reductions whose crossover is
-// 128: Dgebrd 130x129 and 129x130, Dgehrd n = 130 (parameter bigon = 1; needs max_steps
-// 4e8 in the run spec). lwork is case-split over
-// representatives of the classes unblocked (minimum+1), nb = 2 (lower end), nb = 31 (upper
-// end) and nb = 32 (optimum); the
-// result (a, d, e, tau) must agree to 1e-9 with the unblocked run (same reflectors in
-// exact arithmetic) whose identities are checked at small orders by the other harnesses.
-func VerifC03_ConfigBlockedBig() {
+// VerifC03_ConfigBlockedDgebrdTall / ...Wide / ...Dgehrd (thorough tier only; need max_steps
+// 5e8): the blocked reductions whose crossover is nx = 128: Dgebrd 130x129, Dgebrd 129x130,
+// Dgehrd n = 130. ONE path per harness (a path of this size needs about 3 GB in the
+// interpreter, so the lwork classes are visited sequentially instead of by a case split):
+// lwork = representatives of the classes unblocked (minimum+1), nb = 2 (lower end), nb = 31
+// (upper end), nb = 32 (optimum). The result (a, d, e, tau) must agree to 1e-9 with the
+// unblocked run (the same reflectors in exact arithmetic), whose identities are checked at
+// small orders by the other harnesses; paddings untouched; no panic or runtime fault.
+func VerifC03_ConfigBlockedDgebrdTall() { verifC03cBlockedBig(0) }
+func VerifC03_ConfigBlockedDgebrdWide() { verifC03cBlockedBig(1) }
+func VerifC03_ConfigBlockedDgehrd()     { verifC03cBlockedBig(2) }
+
+func verifC03cBlockedBig(which int) {
 	impl := Implementation{}
-	if verifParam("bigon", 0) == 0 {
-		verifReach("end") // quick tier: switched off
-		return
-	}
-	which := verifChoose("routine", 0, 2)
-	cls := verifChoose("class", 0, 3)
 	pad := 3
+	clo, chi := verifParam("bigclo", 0), verifParam("bigchi", 3)
 	switch which {
 	case 0, 1:
 		m, n := 130, 129
@@ -1341,44 +1341,48 @@ func VerifC03_ConfigBlockedBig() {
 		lda, mn := n+pad, 129
 		a0 := verifC03cMat(m, n, lda, 1000+which)
 		anorm := verifC03cMaxAbs(m, n, a0, lda)
+		tol := 1e-9 * math.Max(1, anorm) * float64(m+n)
 		lw0 := max(m, n)
 		aref := verifC03cClone(a0)
 		dr, er, tqr, tpr := make([]float64, mn), make([]float64, mn-1), make([]float64, mn), make([]float64, mn)
 		impl.Dgebrd(m, n, aref, lda, dr, er, tqr, tpr, make([]float64, lw0), lw0)
-		lwork := []int{lw0 + 1, (m + n) * 2, (m+n)*32 - 1, (m + n) * 32}[cls]
-		a := verifC03cClone(a0)
-		d, e, tq, tp := make([]float64, mn), make([]float64, mn-1), make([]float64, mn), make([]float64, mn)
-		work := make([]float64, lwork)
-		panicked, _, msg := verifCatch(func() { impl.Dgebrd(m, n, a, lda, d, e, tq, tp, work, lwork) })
-		verifAssert(!panicked, "Dgebrd(blocked): no panic or runtime fault ("+msg+")")
-		if panicked {
-			return
+		for cls := clo; cls <= chi; cls++ {
+			lwork := []int{lw0 + 1, (m + n) * 2, (m+n)*32 - 1, (m + n) * 32}[cls]
+			a := verifC03cClone(a0)
+			d, e, tq, tp := make([]float64, mn), make([]float64, mn-1), make([]float64, mn), make([]float64, mn)
+			work := make([]float64, lwork)
+			panicked, _, msg := verifCatch(func() { impl.Dgebrd(m, n, a, lda, d, e, tq, tp, work, lwork) })
+			verifAssert(!panicked, "Dgebrd(blocked): no panic or runtime fault ("+msg+")")
+			if panicked {
+				return
+			}
+			verifC03cPadSame(m, n, lda, a, a0, "Dgebrd(blocked): padding of a untouched")
+			verifAssert(verifC03cDist(m, n, a, lda, aref, lda) <= tol && verifC03cDist(1, mn, d, mn, dr, mn) <= tol &&
+				verifC03cDist(1, mn-1, e, mn, er, mn) <= tol && verifC03cDist(1, mn, tq, mn, tqr, mn) <= tol && verifC03cDist(1, mn, tp, mn, tpr, mn) <= tol,
+				"Dgebrd(blocked): agrees with the unblocked reduction")
 		}
-		tol := 1e-9 * math.Max(1, anorm) * float64(m+n)
-		verifC03cPadSame(m, n, lda, a, a0, "Dgebrd(blocked): padding of a untouched")
-		verifAssert(verifC03cDist(m, n, a, lda, aref, lda) <= tol && verifC03cDist(1, mn, d, mn, dr, mn) <= tol &&
-			verifC03cDist(1, mn-1, e, mn, er, mn) <= tol && verifC03cDist(1, mn, tq, mn, tqr, mn) <= tol && verifC03cDist(1, mn, tp, mn, tpr, mn) <= tol,
-			"Dgebrd(blocked): agrees with the unblocked reduction")
 	default:
 		n := 130
 		lda := n + pad
 		const tsize = 65 * 64
 		a0 := verifC03cMat(n, n, lda, 1002)
 		anorm := verifC03cMaxAbs(n, n, a0, lda)
+		tol := 1e-9 * math.Max(1, anorm) * float64(n)
 		aref, tr := verifC03cClone(a0), make([]float64, n-1)
 		impl.Dgehrd(n, 0, n-1, aref, lda, tr, make([]float64, n), n)
-		lwork := []int{n + 1, tsize + n*2, tsize + n*32 - 1, tsize + n*32}[cls]
-		a, tau := verifC03cClone(a0), make([]float64, n-1)
-		work := make([]float64, lwork)
-		panicked, _, msg := verifCatch(func() { impl.Dgehrd(n, 0, n-1, a, lda, tau, work, lwork) })
-		verifAssert(!panicked, "Dgehrd(blocked): no panic or runtime fault ("+msg+")")
-		if panicked {
-			return
+		for cls := clo; cls <= chi; cls++ {
+			lwork := []int{n + 1, tsize + n*2, tsize + n*32 - 1, tsize + n*32}[cls]
+			a, tau := verifC03cClone(a0), make([]float64, n-1)
+			work := make([]float64, lwork)
+			panicked, _, msg := verifCatch(func() { impl.Dgehrd(n, 0, n-1, a, lda, tau, work, lwork) })
+			verifAssert(!panicked, "Dgehrd(blocked): no panic or runtime fault ("+msg+")")
+			if panicked {
+				return
+			}
+			verifC03cPadSame(n, n, lda, a, a0, "Dgehrd(blocked): padding of a untouched")
+			verifAssert(verifC03cDist(n, n, a, lda, aref, lda) <= tol && verifC03cDist(1, n-1, tau, n, tr, n) <= tol,
+				"Dgehrd(blocked): agrees with the unblocked reduction")
 		}
-		tol := 1e-9 * math.Max(1, anorm) * float64(n)
-		verifC03cPadSame(n, n, lda, a, a0, "Dgehrd(blocked): padding of a untouched")
-		verifAssert(verifC03cDist(n, n, a, lda, aref, lda) <= tol && verifC03cDist(1, n-1, tau, n, tr, n) <= tol,
-			"Dgehrd(blocked): agrees with the unblocked reduction")
 	}
 	verifReach("end")
 }
